@@ -27,6 +27,10 @@ CLOSE-FIELDS - every dependency-set field initialised in Task.__init__ flows
 into both the result and the next round of close_dependency_graph, and
 build_graphs sends depends_on to the hard graph and soft_depends_on to the
 soft graph, with every task a node of both.
+The closure de-duplicates tasks by identity, not by name (the name check that
+follows must see both tasks of an equal-name pair). USE-PURE - deriving a
+wrapper from another (from_func, map, using) has no write effect on the
+wrapper or task it starts from (ownership analysis).
 Not decided: the behaviour of a generated task when it is run (do() on a
 prepared environment); termination of the closure on cyclic graphs.
 '''
@@ -46,6 +50,7 @@ def check(ctx):
     ctx.run(memo.check_key)
     ctx.run(memo.check_unique)
     ctx.run(memo.check_close_fields)
+    ctx.run(memo.check_use_pure)
 
 
 def variants(program):
@@ -152,6 +157,64 @@ def variants(program):
         return False
     add('soft-edges-into-hard-graph', 'mutant', COMMON, graphs_swapped,
         {'CLOSE-FIELDS'})
+
+    def closure_dfs_by_name(tree):
+        fun = find_func(tree, 'close_dependency_graph')
+        doc = [s_ for s_ in fun.body if isinstance(s_, ast.Expr) and
+               isinstance(s_.value, ast.Constant)]
+        fun.body = doc + parse_stmts(
+            'all_tasks = list(dict.fromkeys(tasks))\n'
+            'seen = set(task.name for task in all_tasks)\n'
+            'queue = all_tasks.copy()\n'
+            'while queue:\n'
+            '    task = queue.pop()\n'
+            '    for dep in list(task.depends_on) + '
+            'list(task.soft_depends_on):\n'
+            '        if dep.name in seen:\n'
+            '            continue\n'
+            '        seen.add(dep.name)\n'
+            '        all_tasks.append(dep)\n'
+            '        queue.append(dep)\n'
+            'return all_tasks')
+        return True
+    add('closure-visits-each-name-once', 'mutant', TASK,
+        closure_dfs_by_name, {'CLOSE-FIELDS'},
+        note='seeded C15-1: a second task with an already seen name is '
+             'dropped: the duplicate-name check never sees it')
+
+    def closure_dfs_by_identity(tree):
+        fun = find_func(tree, 'close_dependency_graph')
+        doc = [s_ for s_ in fun.body if isinstance(s_, ast.Expr) and
+               isinstance(s_.value, ast.Constant)]
+        fun.body = doc + parse_stmts(
+            'all_tasks = list(dict.fromkeys(tasks))\n'
+            'seen = set(all_tasks)\n'
+            'queue = all_tasks.copy()\n'
+            'while queue:\n'
+            '    task = queue.pop()\n'
+            '    for dep in list(task.depends_on) + '
+            'list(task.soft_depends_on):\n'
+            '        if dep in seen:\n'
+            '            continue\n'
+            '        seen.add(dep)\n'
+            '        all_tasks.append(dep)\n'
+            '        queue.append(dep)\n'
+            'return all_tasks')
+        return True
+    add('twin-closure-depth-first-by-identity', 'twin', TASK,
+        closure_dfs_by_identity)
+
+    def from_func_shares_kwargs(tree):
+        fun = find_func(tree, 'Use.from_func')
+        return replace_first(
+            fun, lambda n: isinstance(n, ast.Call) and txt(n) ==
+            'func.inj_kwargs.copy()',
+            lambda n: parse_expr("getattr(func, 'inj_kwargs', None) or {}"))
+    add('derived-wrapper-shares-keyword-injections', 'mutant', USE,
+        from_func_shares_kwargs, {'USE-PURE'},
+        note='seeded C15-2: decorating a wrapper a second time adds the '
+             'keyword injection to the wrapper itself and to everything '
+             'derived from it')
 
     # ---- twins
     def key_local(tree):
